@@ -556,9 +556,23 @@ func (cp *ClientPromise) Fulfill(c *Client) {
 		cp.h.mu.Unlock()
 		panic("ClientPromise.Resolve called more than once")
 	}
+	refs := cp.h.refs
+	transferred := false
+	if refs > 0 && rh != nil && rh != cp.h {
+		// Transfer the promise's references to the capability it resolves
+		// to before the resolution becomes visible.  Otherwise a concurrent
+		// Release of one of the promise's clients could follow the
+		// resolution and reach the target ahead of the transferred
+		// references, shutting it down while it is still referenced.
+		rh.mu.Lock()
+		if final := resolveHook(rh); final != nil {
+			final.refs += refs
+			final.mu.Unlock()
+		}
+		transferred = true
+	}
 	cp.h.resolvedHook = rh
 	close(cp.h.resolved)
-	refs := cp.h.refs
 	cp.h.refs = 0
 	if refs == 0 {
 		cp.h.mu.Unlock()
@@ -569,10 +583,14 @@ func (cp *ClientPromise) Fulfill(c *Client) {
 	if cp.h.calls == 0 {
 		close(cp.h.done)
 	}
-	rh = resolveHook(cp.h) // swaps mutex on cp.h for mutex on rh
-	if rh != nil {
-		rh.refs += refs
-		rh.mu.Unlock()
+	if transferred {
+		cp.h.mu.Unlock()
+	} else {
+		rh = resolveHook(cp.h) // swaps mutex on cp.h for mutex on rh
+		if rh != nil {
+			rh.refs += refs
+			rh.mu.Unlock()
+		}
 	}
 	verifYield("cap:Fulfill:done")
 	<-cp.h.done
